@@ -118,8 +118,9 @@ fn datetimes() -> Vec<String> {
                 }));
             }
             let v = utc.with_timezone(&chrono::Local);
+            let local_off = chrono::Offset::fix(v.offset()).local_minus_utc();
             let r = guarded(move || serialize_to_byte_vec(&v));
-            out.push(format!("DT local {} - {}", utc.timestamp(), match r {
+            out.push(format!("DT local {} {local_off} {}", utc.timestamp(), match r {
                 Err(_) => "panic".to_string(),
                 Ok(Ok(b)) => format!("ok {}", hex(&b)),
                 Ok(Err(e)) => format!("err {}", err_class(&e)),
@@ -129,8 +130,14 @@ fn datetimes() -> Vec<String> {
     out
 }
 
-pub fn run(_args: &[String]) {
+pub fn run(args: &[String]) {
     quiet_panics();
+    if args.first().map(|a| a == "datetimes-only").unwrap_or(false) {
+        for l in datetimes() {
+            println!("{l}");
+        }
+        return;
+    }
     println!("{}", chars());
     for l in lens() {
         println!("{l}");
